@@ -144,12 +144,35 @@ func (w *World) applyEvent(ev string) bool {
 		w.settle()
 	case "restart":
 		w.restarts = append(w.restarts, w.S.Now)
+		if len(p) > 1 && p[1] == "late" {
+			// the application subscribes its filter only after the node is running again ("sub" event)
+			w.lateSub, w.cfg.Subscribe = w.cfg.Subscribe, nil
+		}
 		w.CleanRestart()
 		w.lastUnsync = w.S.Now
 		if len(p) == 1 || p[1] != "raw" {
 			w.settleMacro() // "restart" brings the node back in sync; "restart:raw" does not
 			w.lastUnsync = w.S.Now
 		}
+	case "sub": // the application (re)subscribes its push data filter
+		if w.lateSub == nil {
+			return false
+		}
+		w.cfg.Subscribe, w.lateSub = w.lateSub, nil
+		w.Node.SubscribePushDatas(core.Ctx(), w.cfg.Subscribe)
+		w.settle()
+	case "offline": // offline:<txs>: clean stop, the peer mines a block with these txs while the node is down, start, catch up
+		w.restarts = append(w.restarts, w.S.Now)
+		w.StopNode()
+		var names []string
+		if len(p) > 1 && p[1] != "" {
+			names = strings.Split(p[1], ",")
+		}
+		w.Extend(1, names)
+		w.StartNode()
+		w.settle()
+		w.settleMacro()
+		w.lastUnsync = w.S.Now
 	case "crash":
 		// the process dies: every thread of the node is abandoned, a new node starts on the store
 		w.S.KillAll(true)
@@ -512,6 +535,10 @@ func (w *World) eventEnabled(ev string) bool {
 		return pc != nil && pc.conn != nil && !pc.conn.IsClosed() && !pc.conn.Peer.IsClosed()
 	case "h", "b":
 		return w.P != nil && w.P.conn != nil && !w.P.conn.IsClosed() && !w.P.conn.Peer.IsClosed()
+	case "sub":
+		return w.lateSub != nil
+	case "restart":
+		return !(len(p) > 1 && p[1] == "late" && (w.lateSub != nil || len(w.cfg.Subscribe) == 0))
 	case "burst":
 		pc := w.connOf(p[1])
 		return !w.bursted[p[1]] && pc != nil && pc.conn != nil && !pc.conn.IsClosed() && !pc.conn.Peer.IsClosed()
@@ -623,8 +650,9 @@ func (w *World) safeLiveness() {
 		if t == nil || t.newCount == 0 || !w.relevant(n) || w.minedIn(n) != nil {
 			continue
 		}
-		if t.gens[0] != w.nodeGen {
-			continue
+		restarted := t.gens[0] != w.nodeGen
+		if restarted && w.crashAfter(t.times[0]) {
+			continue // an unclean crash may lose the tracking; a clean restart must keep it (C11)
 		}
 		vouched, local := false, false
 		for _, a := range w.arrivals[n] {
@@ -648,7 +676,11 @@ func (w *World) safeLiveness() {
 			}
 		}
 		if !safe && !unsafe {
-			w.fail("C07", "safe-eventually", "vouched conflict-free tx never reported safe", fmt.Sprintf("tx %s was announced by the trusted peer, has no known conflict, the node stayed in sync for %d ms beyond the delay, but no safe report was sent", n, 500))
+			cls := "vouched conflict-free tx never reported safe"
+			if restarted {
+				cls += " (delivered before a clean restart)"
+			}
+			w.fail("C07", "safe-eventually", cls, fmt.Sprintf("tx %s was announced by the trusted peer, has no known conflict, the node stayed in sync for %d ms beyond the delay, but no safe report was sent", n, 500))
 		}
 	}
 }
@@ -684,4 +716,13 @@ func (w *World) settleMacro() {
 			break
 		}
 	}
+}
+
+func (w *World) crashAfter(t int64) bool {
+	for _, c := range w.crashes {
+		if c >= t {
+			return true
+		}
+	}
+	return false
 }
